@@ -55,6 +55,18 @@ def run_cases(mod, cases, default_timeout=180.0):
     modname = mod.__name__
     batch_size = getattr(mod, "BATCH", 8)
     case_timeout = getattr(mod, "CASE_TIMEOUT", default_timeout)
+    # wall-clock limits are watchdogs only (their firing is inconclusive,
+    # never a verdict): generous, and more so for the thorough tier and on a
+    # loaded machine
+    factor = float(os.environ.get("VP_TIMEOUT_FACTOR", "1"))
+    if cases and cases[0].get("tier") == "thorough":
+        factor *= 4.0
+    try:
+        load = os.getloadavg()[0] / max(1, os.cpu_count() or 1)
+        factor *= max(1.0, min(4.0, load))
+    except OSError:
+        pass
+    case_timeout *= factor
     for i, c in enumerate(cases):
         c["_i"] = i
     # interleave so that expensive neighbouring cases spread over batches
